@@ -339,8 +339,11 @@ def shapes(tier):
             sh = enum_unary(ename, variants)
             sh.quick = q
             out.append(sh)
-    if tier == "quick":
-        out = [s for s in out if s.quick]
+    # the whole grid costs about a minute: both tiers run all of it
+    for s in out:
+        s.quick = True
+        for h in s.harnesses:
+            h.quick = True
     return out
 
 
